@@ -83,9 +83,22 @@ func c12Envelope(c *mc.Ctx, k c12Env, withStream bool) {
 			bad("write", "WriteMessageBegin wrote %d bytes %s, want %s", n, mc.Hex(buf[:n]), mc.Hex(want))
 			return
 		}
-		if ab := B.AppendMessageBegin([]byte{0xAA}, name, k.Type, k.Seq); !bytes.Equal(ab[1:], want) || ab[0] != 0xAA {
-			bad("append", "AppendMessageBegin produced %s, want %s", mc.Hex(ab[1:]), mc.Hex(want))
-			return
+		// appending writer onto destinations of every relevant shape: nil, short prefix, and prefixes whose spare
+		// capacity is just below / exactly / above what the header needs
+		for _, sh := range [][2]int{{0, 0}, {1, 1}, {2, 64}, {20, 20 + len(want) - 1}, {20, 20 + len(want)}, {20, 32}, {30, 32}, {3, len(want)}, {len(want), len(want) + 1}} {
+			if sh[1] < sh[0] {
+				continue
+			}
+			dst := make([]byte, sh[0], sh[1])
+			for i := range dst {
+				dst[i] = 0xA0 | byte(i&7)
+			}
+			keep := append([]byte{}, dst...)
+			ab := B.AppendMessageBegin(dst, name, k.Type, k.Seq)
+			if len(ab) != len(keep)+len(want) || !bytes.Equal(ab[:len(keep)], keep) || !bytes.Equal(ab[len(keep):], want) {
+				bad("append", "AppendMessageBegin onto a destination of len %d cap %d produced %d bytes, want prefix + %d header bytes", sh[0], sh[1], len(ab), len(want))
+				return
+			}
 		}
 		mcache.VerifReset()
 		vsync.Reset()
@@ -126,6 +139,12 @@ func c12Envelope(c *mc.Ctx, k c12Env, withStream bool) {
 		vsync.Reset()
 		bad("panic", "panic: %s at %s", pi.Msg, pi.Frame)
 	}
+}
+
+type c12Short struct {
+	Hex    string `json:"input_hex"`
+	Env    EnvCfg `json:"env"`
+	Stream bool   `json:"stream"`
 }
 
 type c12Word struct {
@@ -323,7 +342,42 @@ func c12Run(c *mc.Ctx) {
 			}
 		}
 	}
-	c.Done("every strict prefix of envelopes with 4 name lengths is rejected by both readers")
+	// a first word without the strict marker on inputs of 4..11 bytes: BAD_VERSION on both readers, not a truncation error
+	if c.Mine() {
+		for _, word := range []uint32{0, 0x00010000, 0x80000001, 0x47455420, 0x7fffffff, 0x80020001, 0xffffffff} {
+			for n := 4; n <= 11; n++ {
+				in := make([]byte, n)
+				binary.BigEndian.PutUint32(in, word)
+				c.Eval(2)
+				_, _, _, _, err := thrift.Binary.ReadMessageBegin(in)
+				if protoTypeID(err) != tidBadVersion {
+					c.Violate("shortbad", "C12|short-bad-version|Binary.ReadMessageBegin", fmt.Sprintf("Binary.ReadMessageBegin on %x (first word lacks the strict-version marker): %v, want a BAD_VERSION protocol exception", in, err), c12Short{Hex: fmt.Sprintf("%x", in)})
+				}
+				for _, env := range []EnvCfg{{}, {Chunk: 1}, {ErrWithLast: true}} {
+					r := bufiox.NewDefaultReader(NewEnvReader(in, env))
+					b := thrift.NewBufferReader(r)
+					_, _, _, err := b.ReadMessageBegin()
+					b.Recycle()
+					r.Release(nil)
+					if protoTypeID(err) != tidBadVersion {
+						c.Violate("shortbad", "C12|short-bad-version|BufferReader.ReadMessageBegin", fmt.Sprintf("BufferReader.ReadMessageBegin on a %d-byte stream %x (first word lacks the strict-version marker) [%s]: %v, want a BAD_VERSION protocol exception", n, in, env, err), c12Short{Hex: fmt.Sprintf("%x", in), Env: env, Stream: true})
+					}
+				}
+			}
+		}
+		// name-length field at its boundaries: an error, never a panic
+		full := ref.MessageBegin(nil, "name", 1, 7)
+		for _, nl := range []uint32{0x7ffffffb, 0x7ffffffc, 0x7ffffffd, 0x7ffffffe, 0x7fffffff, 0x80000000, 0xfffffffc, 0xffffffff, 5, 9, 0x10000} {
+			in := append([]byte{}, full...)
+			binary.BigEndian.PutUint32(in[4:], nl)
+			c.Eval(1)
+			var err error
+			if pi := mc.Try(func() { _, _, _, _, err = thrift.Binary.ReadMessageBegin(in) }); pi != nil || err == nil {
+				c.Violate("shortbad", "C12|name-length-boundary|Binary.ReadMessageBegin", fmt.Sprintf("Binary.ReadMessageBegin with a declared name length of %#x on a %d-byte header: panic=%v err=%v, want an error", nl, len(in), pi != nil, err), c12Short{Hex: fmt.Sprintf("%x", in)})
+			}
+		}
+	}
+	c.Done("every strict prefix of envelopes with 4 name lengths is rejected by both readers; bad first words on 4..11-byte inputs give BAD_VERSION; name-length boundary values give an error")
 	// (4) MarshalFastMsg -> UnmarshalFastMsg
 	pays := []c11Val{
 		{Kind: "base", S: [3]string{"log", "caller", "addr"}, HasMap: true, Extra: map[string]string{"k": "v"}},
@@ -382,6 +436,32 @@ func init() {
 				})
 			case "msg":
 				replayAs(raw, func(k c12Msg) { c12Marshal(c, k) })
+			case "shortbad":
+				replayAs(raw, func(k c12Short) {
+					in, _ := hex.DecodeString(k.Hex)
+					var err error
+					pi := mc.Try(func() {
+						if k.Stream {
+							r := bufiox.NewDefaultReader(NewEnvReader(in, k.Env))
+							b := thrift.NewBufferReader(r)
+							_, _, _, err = b.ReadMessageBegin()
+						} else {
+							_, _, _, _, err = thrift.Binary.ReadMessageBegin(in)
+						}
+					})
+					word := binary.BigEndian.Uint32(in)
+					which := "Binary.ReadMessageBegin"
+					if k.Stream {
+						which = "BufferReader.ReadMessageBegin"
+					}
+					if word>>16 != 0x8001 {
+						if pi != nil || protoTypeID(err) != tidBadVersion {
+							c.Violate("shortbad", "C12|short-bad-version|"+which, fmt.Sprintf("%s on %x: %v", which, in, err), k)
+						}
+					} else if pi != nil || err == nil {
+						c.Violate("shortbad", "C12|name-length-boundary|"+which, fmt.Sprintf("%s on %x: panic=%v err=%v", which, in, pi != nil, err), k)
+					}
+				})
 			}
 		},
 	})
